@@ -405,6 +405,43 @@ func c13Run(c *Ctx, cs c13Case) {
 		case !errors.Is(err, context.Canceled):
 			fail("error-does-not-wrap-context-error", fmt.Sprintf("returned %v", err))
 		}
+	case "until-drain-cancelled-before", "until-drain-cancel-during":
+		// the callback rejects a package that is not the final DONE; the
+		// library then consumes the rest of the response - which never
+		// arrives (response abandoned / server stalls). The caller's
+		// cancelled context must still end the call.
+		if cs.Fill == 0 || cs.Fill > c13Cap {
+			return
+		}
+		ctx, cancel := context.WithCancel(context.Background())
+		defer cancel()
+		if cs.Action == "until-drain-cancelled-before" {
+			cancel()
+		}
+		var err error
+		cbErr := errors.New("rejected by the consumer")
+		call := c13Go(func() {
+			_, err = e.ch.NextPackageUntil(ctx, true, func(tds.Package) (bool, error) { return false, cbErr })
+		})
+		if cs.Action == "until-drain-cancel-during" {
+			if st := call.parkedState(10 * time.Second); st != "select" {
+				if st == "" {
+					r.Count("drain_returned_before_cancel", 1)
+				} else {
+					r.Inconclusive("draining receive expected to park in select, state %q", st)
+				}
+				return
+			}
+			cancel()
+		}
+		if !bounded(call, "NextPackageUntil draining an unfinished response with a cancelled context", 10*time.Second) {
+			return
+		}
+		if err == nil {
+			fail("receive-succeeded-with-nothing-queued", "NextPackageUntil returned nil although its callback failed")
+		} else if !errors.Is(err, cbErr) && !errors.Is(err, context.Canceled) {
+			fail("error-does-not-wrap-context-error", fmt.Sprintf("returned %v, which matches neither the callback's nor the context's error", err))
+		}
 	case "next-cancel-during", "next-conn-cancel-during":
 		if cs.Fill != 0 {
 			return
@@ -609,21 +646,34 @@ func c13Run(c *Ctx, cs c13Case) {
 		defer cancel()
 		var wg sync.WaitGroup
 		wg.Add(3)
+		var pmu sync.Mutex
+		var stressPanic *rt.PanicInfo
+		guard := func(f func()) {
+			if pi := rt.Catch(f); pi != nil {
+				pmu.Lock()
+				stressPanic = pi
+				pmu.Unlock()
+			}
+		}
 		go func() {
 			defer wg.Done()
-			for ctx.Err() == nil {
-				if _, err := e.ch.NextPackage(ctx, true); errors.Is(err, tds.ErrChannelClosed) {
-					return
+			guard(func() {
+				for ctx.Err() == nil {
+					if _, err := e.ch.NextPackage(ctx, true); errors.Is(err, tds.ErrChannelClosed) {
+						return
+					}
 				}
-			}
+			})
 		}()
 		go func() {
 			defer wg.Done()
-			for i := 0; ctx.Err() == nil && i < 200; i++ {
-				if err := e.ch.SendPackage(ctx, &tds.LanguagePackage{Cmd: strings.Repeat("s", rnd.Range(1, 1200))}); errors.Is(err, tds.ErrChannelClosed) {
-					return
+			guard(func() {
+				for i := 0; ctx.Err() == nil && i < 200; i++ {
+					if err := e.ch.SendPackage(ctx, &tds.LanguagePackage{Cmd: strings.Repeat("s", rnd.Range(1, 1200))}); errors.Is(err, tds.ErrChannelClosed) {
+						return
+					}
 				}
-			}
+			})
 		}()
 		go func() {
 			defer wg.Done()
@@ -646,6 +696,13 @@ func c13Run(c *Ctx, cs c13Case) {
 			if ok {
 				fail("does-not-return/other", "a receive or send running concurrently with Close did not return within 10 s after its context was cancelled")
 			}
+			return
+		}
+		pmu.Lock()
+		sp := stressPanic
+		pmu.Unlock()
+		if sp != nil {
+			fail("panic/"+sp.Frame, "a receive or send running concurrently with Close panicked: "+sp.Value)
 			return
 		}
 		if ok {
@@ -676,7 +733,7 @@ func runC13(c *Ctx) {
 	if !quick {
 		fills = []int{0, 1, 2, 3, 4, 5, 6}
 	}
-	simple := []string{"next-cancelled-before", "until-cancelled-before", "next-cancel-during", "next-conn-cancel-during", "next-conn-cancelled-before", "send-cancelled", "send-conn-cancelled", "close", "close-twice", "conn-close", "close-vs-blocked-receive", "close-vs-reader-in-read"}
+	simple := []string{"next-cancelled-before", "until-cancelled-before", "until-drain-cancelled-before", "until-drain-cancel-during", "next-cancel-during", "next-conn-cancel-during", "next-conn-cancelled-before", "send-cancelled", "send-conn-cancelled", "close", "close-twice", "conn-close", "close-vs-blocked-receive", "close-vs-reader-in-read"}
 	for _, f := range fills {
 		for _, logical := range []bool{false, true} {
 			for _, tf := range []bool{false, true} {
